@@ -254,7 +254,8 @@ example : (ids ex).map (sfc ex true .centripetal exPre exPost) = [0, 4, 0, 4, 0,
 example : (ids ex).map (pathCount ex .sum exPre exPost) = [0, 5, 9, 4, 6, 4] := by decide
 example : isFork ex 2 = true ∧ isFork ex 1 = false ∧ sfcOKB ex .sum exPre exPost (sfc ex true .sum exPre exPost) = true := by decide
 example : treePath ex 4 5 = some [4, 2, 3, 5] ∧ legUp ex 5 4 = [5, 3] := by decide
--- pairs in different trees are not counted
+-- pairs in different trees are not counted (`true`); the second value is historical: what the pure-Python
+-- path returned before it was repaired to count per tree (whole-table totals, `perTree = false`)
 example : (ids exF).map (sfc exF true .centrifugal [2] [1, 0]) = [0, 1, 0, 0] ∧
     (ids exF).map (sfc exF false .centrifugal [2] [1, 0]) = [1, 2, 0, 0] := by decide
 example : (ids ex).map (bendingFlow ex exPre exPost) = [3, 3, 3, 3, 3, 3] ∧ bendPairs ex exPre exPost 2 = 3 := by decide
